@@ -35,6 +35,8 @@ func init() {
 			Old: "\tif !continueProcess {\n\t\tresp.StatusCode = StatusMethodNotValidInThisState\n\t\terr = s.response(resp)\n\t\treturn false, err\n\t}", New: "\tif !continueProcess {\n\t\tresp.StatusCode = StatusMethodNotValidInThisState\n\t\ts.mode = UnknownSession\n\t\terr = s.response(resp)\n\t\treturn false, err\n\t}", Expect: "R-GATE-TABLE"},
 		&Mutant{Prop: "C12", Name: "c12-playing-before-success", File: "service/rtsp/session.go",
 			Old: "\tif err == nil {\n\t\ts.status = statusPlaying\n\t}\n\treturn", New: "\ts.status = statusPlaying\n\treturn", Expect: "R-STATE-WRITERS"},
+		&Mutant{Prop: "C12", Name: "c12-ready-before-checks", File: "service/rtsp/session.go",
+			Old: "\t// 检查和以前的命令是否一致\n\tif s.mode == UnknownSession {", New: "\tif s.status < statusReady {\n\t\ts.status = statusReady\n\t}\n\t// 检查和以前的命令是否一致\n\tif s.mode == UnknownSession {", Expect: "R-STATE-WRITERS"},
 		&Mutant{Prop: "C12", Name: "c12-cseq-not-echoed", File: "service/rtsp/session.go",
 			Old: "\tresp.Header.Set(FieldCSeq, req.Header.Get(FieldCSeq))\n\tresp.Header.Set(FieldSession, s.lsession)\n\n\t// 根据认证模式", New: "\tresp.Header.Set(FieldSession, s.lsession)\n\n\t// 根据认证模式", Expect: "R-RESPONSE-CTOR"},
 		&Mutant{Prop: "C12", Name: "c12-teardown-keeps-stream", File: "service/rtsp/session.go",
@@ -437,6 +439,49 @@ func ruleStateWriters(c *Ctx) {
 		})
 	}
 	c.Floor("stores to Session.status", n, 5)
+	// a refused SETUP must leave the state unchanged: no path of onSetup both advances the status and ends with an error status code
+	setup := p.Func("service/rtsp", "(*Session).onSetup")
+	if setup == nil {
+		c.Lost("rtsp.Session.onSetup", "not found")
+		return
+	}
+	type ss struct{ Ready, Err bool }
+	r := &PathRule[ss]{Fn: setup, Init: []ss{{}},
+		Transfer: func(s ss, ins ssa.Instruction) []ss {
+			sto, ok := ins.(*ssa.Store)
+			if !ok {
+				return nil
+			}
+			f, _, ok := fieldAddr(sto.Addr)
+			if !ok {
+				return nil
+			}
+			if f == st {
+				s.Ready = true
+				return []ss{s}
+			}
+			if f.Name() == "StatusCode" {
+				if k, ok := evalInt(sto.Val); ok && k >= 400 {
+					s.Err = true
+					return []ss{s}
+				}
+			}
+			return nil
+		}}
+	res := RunPath(r)
+	c.paths += res.N
+	okS := true
+	for ret, sts := range res.Exits() {
+		for _, s := range sts {
+			if s.Ready && s.Err {
+				okS = false
+				c.Bad("status-advance-only-on-success:onSetup", p.InstrPos(ret), "a path of onSetup both moves the session to Ready and answers with an error status: a refused SETUP changes the state, so a following PLAY/RECORD is accepted although no SETUP succeeded")
+			}
+		}
+	}
+	if okS {
+		c.OK("status-advance-only-on-success:onSetup", p.Pos(setup.Pos()), "the state advances only on paths that end without an error status")
+	}
 }
 
 // ------------------------------------------------------------ R-HANDLERS-GATED
